@@ -1,6 +1,7 @@
 import PnVerif.Props.C04
 import PnVerif.Lemmas.LayoutLemmas
 import PnVerif.Lemmas.PostPass
+import PnVerif.Lemmas.Written
 /-
   C03 — files written conform to the classic CDF-1/2/5 format specification.
   Models: Model/Layout.lean (NC_begins, alignment precedence), Model/Header.lean (writer, header
@@ -73,6 +74,46 @@ theorem history_wf (fmt : Fmt) (ps : List Phase) (steps : List Step)
     ∀ s ∈ steps, LayoutWF s.xsz s.vars s.al s.old s.L :=
   runHistory_wf fmt ps [] 0 none steps (fun v hv => by cases hv) hlen (fun _ o ho => by cases ho) h
 
+/-- The header the library writes after NC_begins (`written h L`: the schema with the begins NC_begins
+    computed) has a layout the format specification allows (`Schema.LayoutValid`: begins after the
+    header, increasing in definition order, no overlap, record section after the fixed one) — for
+    every schema of valid variables, every hint / ncmpi__enddef argument, new file or redefinition. -/
+theorem written_file_valid (h : Hdr) (hv : ∀ v ∈ h.vars, VarValid h v)
+    (envH envV envR hMin argV vMin argR numFix : Nat) (beginRec0 : Nat) (old : Option Old) (L : Layout)
+    (hold : ∀ o, old = some o → OldOk (vlsOf h) o ∧ beginRec0 = o.beginRec)
+    (hb : ncBegins h.fmt (Hdr.len h) (vlsOf h) (resolveAlign envH envV envR hMin argV vMin argR numFix old.isSome) beginRec0 old = .ok L) :
+    (written h L).LayoutValid (Hdr.len (written h L)) :=
+  written_layout_valid h hv _ old L
+    (begins_wf h.fmt (Hdr.len h) (vlsOf h) envH envV envR hMin argV vMin argR numFix beginRec0 old L
+      (varsOf_len h (vlsOf h) (varsOf_valid h hv)) hold hb)
+
+/-- C03 closes onto C04: the file the library leaves behind (written header, then anything — data,
+    padding, stale bytes) is decoded by the independent specification decoder to exactly the schema
+    with the computed begins, and the library itself reads it back exactly for every read chunk
+    size. -/
+theorem written_file_reads_back (h : Hdr) (hv : ∀ v ∈ h.vars, VarValid h v)
+    (envH envV envR hMin argV vMin argR numFix : Nat) (beginRec0 : Nat) (old : Option Old) (L : Layout)
+    (hold : ∀ o, old = some o → OldOk (vlsOf h) o ∧ beginRec0 = o.beginRec)
+    (hb : ncBegins h.fmt (Hdr.len h) (vlsOf h) (resolveAlign envH envV envR hMin argV vMin argR numFix old.isSome) beginRec0 old = .ok L)
+    (he : Encodable (written h L)) (hl : Limits (written h L)) (rest : Bytes) (c : Nat) :
+    Spec.specDecode (encodeRaw (written h L) ++ rest) = some (written h L) ∧
+    ∃ info, decodeChunked c (encodeRaw (written h L) ++ rest) = .ok (written h L, info) ∧
+      info.lens = (written h L).vars.map (written h L).varLen :=
+  ⟨PnVerif.Props.C04.specDecode_encode _ rest he,
+   PnVerif.Props.C04.valid_encoding_opens c _ rest he hl
+     (written_file_valid h hv envH envV envR hMin argV vMin argR numFix beginRec0 old L hold hb)⟩
+
+example : ∀ v ∈ PnVerif.Props.C04.exampleHdr.vars, VarValid PnVerif.Props.C04.exampleHdr v := by
+  intro v hv
+  simp only [PnVerif.Props.C04.exampleHdr, List.mem_cons, List.mem_nil_iff, or_false] at hv
+  rcases hv with rfl | rfl <;>
+    simp [VarValid, PnVerif.Props.C04.exampleHdr, Schema.isRecDim, Schema.nelems, Schema.dimFactor, NcType.size]
+
+example : ncBegins .cdf1 (Hdr.len PnVerif.Props.C04.exampleHdr) (vlsOf PnVerif.Props.C04.exampleHdr)
+    (resolveAlign 0 0 0 0 0 0 0 2 false) 0 none =
+    .ok { xsz := 168, beginVar := 512, beginRec := 524, recsize := 3, fixedBegins := [512], recBegins := [524] } := by
+  rfl
+
 /-! ### the header extent reported after ncmpi_open (finding FB2-1)
 
   Full-strength statement: after opening any file, the reported header extent
@@ -136,6 +177,6 @@ example : (runHistory .cdf1 [] 0 none
 
 def obligations : List String := [
   "header_size_is_bytes_written", "written_header_decodes", "alignments_resolved", "begins_wf", "begins_wf_fresh",
-  "begins_wf_schema", "history_wf", "reportedExtent_counterexample", "reportedExtent_partial"
+  "begins_wf_schema", "history_wf", "written_file_valid", "written_file_reads_back", "reportedExtent_counterexample", "reportedExtent_partial"
 ]
 end PnVerif.Props.C03
